@@ -85,7 +85,14 @@ type vfPlan struct {
 	Work        time.Duration `json:"work,omitempty"`
 	Ret         string        `json:"ret"` // ok | err | status-err | nil-nil | panic
 	Jitter      int           `json:"jitter,omitempty"`
+	// grid family
+	ParentKind  string `json:"parent_kind,omitempty"` // none | earlier | later | cancelled-before | cancelled-during | value
+	WorkKind    string `json:"work_kind,omitempty"`   // fast | honours | ignores | panic-before | panic-after
+	ParentValue bool   `json:"parent_value,omitempty"`
+	PreCancel   bool   `json:"pre_cancel,omitempty"`
 }
+
+type vfCtxKey struct{}
 
 const vfSlowMethod = "/verif.Svc/Slow"
 
@@ -117,6 +124,7 @@ type vfExec struct {
 	seenDl       time.Time
 	seenOk       bool
 	reqSeen      any
+	valueSeen    bool
 	ctxErrAfter  string
 	workRetS     uint64
 	workPanicS   uint64
@@ -156,7 +164,18 @@ func vfHandler(x *vfExec) grpc.UnaryHandler {
 		x.t1 = time.Now()
 		x.seenDl, x.seenOk = ctx.Deadline()
 		x.reqSeen = req
+		x.valueSeen = ctx.Value(vfCtxKey{}) == any(x.tag)
 		switch x.pl.Mode {
+		case "timer-wait-ctx":
+			// work that honours its context: goes on once it is done (real deadline, nobody cancels)
+			t := time.NewTimer(x.patience)
+			select {
+			case <-ctx.Done():
+			case <-x.wrapRet:
+			case <-t.C:
+				x.blockTimeout = true
+			}
+			t.Stop()
 		case "inline":
 			x.cancelS.Store(kit.Stamp())
 			x.cancel()
@@ -210,6 +229,9 @@ func vfRun(x *vfExec) bool {
 		base = c
 		cancels = append(cancels, cf)
 	}
+	if x.pl.ParentValue {
+		base = context.WithValue(base, vfCtxKey{}, x.tag)
+	}
 	parent, cancel := context.WithCancel(base)
 	x.cancel = cancel
 	defer func() {
@@ -232,7 +254,7 @@ func vfRun(x *vfExec) bool {
 	} else {
 		close(x.cEnd)
 	}
-	if x.pl.Mode == "pre" {
+	if x.pl.Mode == "pre" || x.pl.PreCancel {
 		x.cancelS.Store(kit.Stamp())
 		cancel()
 	}
@@ -575,9 +597,163 @@ func vfTimerCase(c *kit.Case) {
 	vfCensus(c)
 }
 
+// ---------------------------------------------------------------- configuration grid
+//
+// caller's context ∈ {no deadline, real deadline earlier than now+timeout, deadline (1 h) later than a
+// real short timeout, already cancelled, cancelled during the work, value-carrying} × handler ∈
+// {returns at once, overruns and honours its context, overruns and ignores it until the interceptor
+// has returned (causal release), panics before / after the expiry}; default and per-method timeouts.
+
+var vfGridParents = []string{"none", "earlier", "later", "cancelled-before", "cancelled-during", "value"}
+var vfGridWorks = []string{"fast", "honours", "ignores", "panic-before", "panic-after"}
+
+func vfGridPlan(r *kit.Rand, pk, wk string) vfPlan {
+	short := time.Duration(2000+r.Intn(10000)) * time.Microsecond
+	far := time.Hour
+	pl := vfPlan{ParentKind: pk, WorkKind: wk, Jitter: r.Pick(4, 2, 1, 1)}
+	base := pk
+	if pk == "value" {
+		pl.ParentValue = true
+		base = kit.Choose(r, []string{"none", "earlier", "later", "later", "cancelled-during"})
+	}
+	var eff time.Duration
+	timerDriven := true
+	switch base {
+	case "none":
+		eff = short
+	case "earlier":
+		eff, pl.ParentAfter = kit.Choose(r, []time.Duration{far, 3 * short}), short
+	case "later":
+		eff, pl.ParentAfter = short, far
+	case "cancelled-before":
+		eff, pl.PreCancel = far, true
+		if r.Bool() {
+			pl.ParentAfter = kit.Choose(r, []time.Duration{far / 2, 2 * far})
+		}
+	case "cancelled-during":
+		timerDriven, eff = false, far
+		if r.Bool() {
+			pl.ParentAfter = kit.Choose(r, []time.Duration{far / 2, 2 * far})
+		}
+	}
+	// the effective timeout comes from the default or from the per-method table
+	switch r.Intn(3) {
+	case 0:
+		pl.Method, pl.Default = "/verif.Svc/Fast", eff
+	case 1:
+		pl.Method, pl.Default, pl.PerMethod = vfSlowMethod, 2*far, eff // per-method shorter than the default
+	default:
+		pl.Method, pl.Default, pl.PerMethod = vfSlowMethod, time.Millisecond, eff // per-method longer than the default
+	}
+	pl.Ret = kit.Choose(r, []string{"ok", "ok", "err", "both", "nil-nil"})
+	if timerDriven {
+		switch wk {
+		case "fast":
+			pl.Mode = "timer"
+		case "honours":
+			pl.Mode = "timer-wait-ctx"
+		case "ignores":
+			pl.Mode = "timer-block"
+		case "panic-before":
+			pl.Mode, pl.Ret = "timer", "panic"
+		case "panic-after":
+			pl.Mode, pl.Ret = "timer-block", "panic"
+		}
+	} else {
+		switch wk {
+		case "fast":
+			pl.Mode = "concurrent"
+		case "honours":
+			pl.Mode = "wait-ctx"
+		case "ignores":
+			pl.Mode = "block"
+		case "panic-before":
+			pl.Mode, pl.Ret = "none", "panic"
+		case "panic-after":
+			pl.Mode, pl.Ret = "block", "panic"
+		}
+	}
+	return pl
+}
+
+func vfGridCase(c *kit.Case) {
+	if vfSkipIfStuck(c) {
+		return
+	}
+	r := c.R
+	var xs []*vfExec
+	for _, pk := range vfGridParents {
+		for _, wk := range vfGridWorks {
+			xs = append(xs, vfNewExec(vfGridPlan(r, pk, wk), fmt.Sprintf("sg%d-%d", c.Index, len(xs))))
+		}
+	}
+	oks := make([]bool, len(xs))
+	kit.WithLabel(c.ID, func() {
+		var wg sync.WaitGroup
+		for i := range xs {
+			wg.Add(1)
+			go func(i int) {
+				defer wg.Done()
+				oks[i] = vfRun(xs[i])
+			}(i)
+		}
+		wg.Wait()
+	})
+	evals := int64(0)
+	for i, x := range xs {
+		if !oks[i] {
+			c.Inconclusive("could not join the handler (grid)")
+			continue
+		}
+		v := vfEvaluate(c, x)
+		evals++
+		pl := x.pl
+		c.Obs("zsg_cells", 1)
+		c.Obs("zsg_outcome_"+v.Outcome, 1)
+		c.Obs("zsg_"+pl.ParentKind+"_"+v.Outcome, 1)
+		causal := pl.WorkKind == "ignores" || pl.WorkKind == "panic-after"
+		if causal {
+			c.Obs("zsg_causal_release_checks", 1)
+			if !x.blockTimeout {
+				c.Obs("zsg_returned_while_handler_blocked", 1)
+				c.Obs("zsg_returned_while_handler_blocked_"+pl.ParentKind, 1)
+			}
+		}
+		if pl.ParentValue && x.valueSeen {
+			c.Obs("zsg_caller_value_visible_to_handler", 1)
+		}
+		if x.hasParentDl && x.seenOk && x.seenDl.Equal(x.parentDl) {
+			c.Obs("zsg_deadline_is_callers", 1)
+		}
+		c.Sig(v.Contended || causal, "zrpc-server-grid", pl.ParentKind, pl.WorkKind, pl.Mode, pl.Ret, pl.Method, pl.PerMethod != 0, pl.PerMethod > pl.Default, pl.ParentAfter != 0, pl.ParentAfter > vfEff(pl), v.Outcome, v.Sig)
+		if x.blockTimeout {
+			if vfWaitBroken.Load() {
+				c.Obs("zs_wait_dependency_after_first_report", 1)
+				continue
+			}
+			y := vfNewExec(pl, x.tag)
+			y.patience = 2 * vfBasePatience
+			switch {
+			case !vfRun(y):
+				c.Inconclusive("does-not-wait re-run could not be joined (grid)")
+			case y.blockTimeout:
+				vfWaitBroken.Store(true)
+				c.Viol("C04/zrpc-server-grid/waits-for-work/parent-"+pl.ParentKind+"/work-"+pl.WorkKind,
+					fmt.Sprintf("the interceptor did not return (or the handler's context was not done) at the earlier of the caller's deadline and now+timeout while the handler was blocked: patience %s and again %s ran out", vfBasePatience, 2*vfBasePatience), vfWitness(x))
+			default:
+				c.Inconclusive("interceptor did not return within patience once, not reproduced with doubled patience (grid)")
+			}
+		}
+	}
+	c.Sample("zrpc-server-grid", 1, map[string]any{"cells": len(xs), "example_plan": xs[12].pl})
+	c.Evals(evals)
+	vfCensus(c)
+}
+
 func TestVerifC04S(t *testing.T) {
 	logx.Disable()
 	kit.Run(t, "C04", "zrpc-server-cancel", kit.N(6000, 80000), vfCancelCase)
 	kit.Run(t, "C04", "zrpc-server-timer", kit.N(800, 12000), vfTimerCase)
+	kit.Run(t, "C04", "zrpc-server-grid", kit.N(160, 2000), vfGridCase)
 	kit.End()
 }
